@@ -576,6 +576,7 @@ def report(prop, tier, seed, results, extra, wall):
                 f.setdefault('fallback', 'proof_hint_only')
     byid = {}
     del_ids = []
+    bounded_only = []
     for f in violations:
         # bounded obligations are distinguished by their input, deductive ones by function and kind
         byid.setdefault(obligation_id(f) + ((' @ ' + f['site'][:120]) if f['kind'] == 'bounded' else ''), []).append(f)
@@ -588,6 +589,17 @@ def report(prop, tier, seed, results, extra, wall):
             except Exception as e:
                 cex0 = None
             if cex0 is None:
+                # A changed function that the verifier's front end does not accept generates no obligation at all: it "cannot be brought
+                # within the verifier's reach".  The brief lets a bounded check with a stated bound stand in for such a function, labelled
+                # bounded and never counted as proved.  That is done here, and only when the property's bounded stand-in ran to completion
+                # on the current tree without a discrepancy.  (A proof that FAILS after a rewrite is different: it stays UNDECIDED.)
+                bsweep = [e for e in extra if e.get('name') == 'bounded:%s' % prop]
+                if all(f['kind'] in ('unverifiable', 'assumed_changed') for f in fs) and bsweep and not bsweep[0].get('undecided') \
+                        and not bsweep[0].get('failures'):
+                    bounded_only.append({'function': oid, 'reason': fs[0]['message'][:300], 'decided_by': 'bounded stand-in only (NOT proved)',
+                                         'bound': bsweep[0]['bounded'][0]['bound']})
+                    del_ids.append(oid)
+                    continue
                 undecided.append('%s: %s; the replay program found no failing input on the real code' % (oid, fs[0]['message'][:200]))
                 del_ids.append(oid)
                 continue
@@ -622,6 +634,9 @@ def report(prop, tier, seed, results, extra, wall):
         byid.pop(oid, None)
     for u in undecided:
         print('UNDECIDED property=%s reason=%s' % (prop, u))
+    for b in bounded_only:
+        print('BOUNDED-ONLY property=%s function=%s (changed function outside the verifier\'s reach; its contract was assumed and the bounded '
+              'stand-in of this property found no discrepancy: not proved)' % (prop, b['function']))
     # ---- evidence
     per_prop = {r['unit']: functions_of_property(r, prop) for r in results if not r.get('dependency_of')}
     dep_funcs = {r['unit']: [f for f in r['functions'] if not f['function'].split('::')[-1].startswith('canary_')] for r in results if r.get('dependency_of')}
@@ -673,6 +688,7 @@ def report(prop, tier, seed, results, extra, wall):
             'samples': samples,
             'failed_obligations': sorted(failed_ids),
             'undecided': undecided,
+            'bounded_only_changed_functions': bounded_only,
         },
         'assumptions': assumptions_for(prop),
         'wall_s': round(wall, 2),
